@@ -85,7 +85,7 @@ pub type Deps = OwnedDeps<MockStorage, MockApi, MockQuerier>;
 pub mod rec {
     use super::*;
     pub use crate::reply::{build_with, ctx_reply, ctx_reply_legacy, reply_proj, inst_data, reply_handler, result_full, result_text, Recv};
-    pub use crate::chain::chain_built;
+    pub use crate::chain::{chain_built, note_target};
     use sylvia::ctx::{ExecCtx, InstantiateCtx, MigrateCtx, QueryCtx, SudoCtx};
     use sylvia::cw_std::{QuerierWrapper, Storage};
 
